@@ -321,6 +321,12 @@ class Exec:
 
     def binop(self, op, a, b, st, node=None):
         fm = self.fm
+        if isinstance(a, Obj) or isinstance(b, Obj):
+            from . import pymodel
+            r = pymodel.obj_binop(self, op, a, b, st, node)
+            if r is not NotImplemented:
+                return r
+            raise Unsupported(f"operator {type(op).__name__} on {type(a).__name__}/{type(b).__name__}")
         if isinstance(a, Arr) or isinstance(b, Arr):
             return self.vec_binop(op, a, b, st, node)
         if is_concrete(a) and is_concrete(b):
@@ -420,6 +426,15 @@ class Exec:
 
     def compare(self, op, a, b, st):
         fm = self.fm
+        if (a is None or b is None) and isinstance(op, (ast.Is, ast.IsNot, ast.Eq, ast.NotEq)):
+            same = a is b
+            return same if isinstance(op, (ast.Is, ast.Eq)) else not same
+        if isinstance(a, Obj) or isinstance(b, Obj):
+            from . import pymodel
+            r = pymodel.obj_compare(self, op, a, b, st)
+            if r is not NotImplemented:
+                return r
+            raise Unsupported(f"comparison {type(op).__name__} on {type(a).__name__}/{type(b).__name__}")
         if isinstance(a, Arr) or isinstance(b, Arr):
             return self.vec_compare(op, a, b, st)
         if a is None or b is None:
@@ -740,6 +755,8 @@ class Exec:
         g = self.ctx.contract.globals_.get(node.id) if self.ctx.contract else None
         if g is not None:
             return g
+        if node.id == "NotImplemented":
+            return NotImplemented
         if self.spec_mode and node.id == "NaN":
             return z3.Const("NaN", self.fm.sort)
         r = self.resolve_global(node.id)
@@ -756,6 +773,10 @@ class Exec:
 
     def e_List(self, node, st):
         return PList([self.eval(e, st) for e in node.elts])
+
+    def e_Dict(self, node, st):
+        from . import xmodel
+        return xmodel.DictV([(self.eval(k, st), self.eval(v, st)) for k, v in zip(node.keys, node.values)])
 
     def e_Lambda(self, node, st):
         return Lam(node, dict(st.env))
@@ -845,6 +866,14 @@ class Exec:
                 if isinstance(right, (Tup, PList)):
                     items = [self.compare(ast.Eq(), left, x, st) for x in right.items]
                     v = any(items) if all(isinstance(i, bool) for i in items) else z3.Or(*[zbool(i) for i in items])
+                    if isinstance(op, ast.NotIn):
+                        v = (not v) if isinstance(v, bool) else z3.Not(v)
+                    res.append(v)
+                    left = right
+                    continue
+                if type(right).__name__ == "Dims":
+                    from . import xmodel
+                    v = xmodel.dims_contains(self, right, left)
                     if isinstance(op, ast.NotIn):
                         v = (not v) if isinstance(v, bool) else z3.Not(v)
                     res.append(v)
@@ -1011,7 +1040,8 @@ class Exec:
         return CompRef(node, dict(st.env))
 
     def e_JoinedStr(self, node, st):
-        return StrV("fstr")
+        from . import pymodel
+        return pymodel.joined_str(self, node, st)
 
     # ------------------------------------------------------------------ statements
     def exec_block(self, stmts, st):
@@ -1074,7 +1104,11 @@ class Exec:
             return [(st, Outcome(NORMAL))]
         if isinstance(s.value, (ast.Yield, ast.YieldFrom)):
             v = self.eval(s.value.value, st)
-            st.yields = st.yields + [v]
+            if st.extra.get("ygh"):
+                from . import xmodel
+                xmodel.record_yield(self, st, v)
+            else:
+                st.yields = st.yields + [v]
             return [(st, Outcome(NORMAL))]
         self.eval(s.value, st)
         return [(st, Outcome(NORMAL))]
